@@ -170,6 +170,35 @@ def challenges (t : T) (nm : Nat) (pf : Proof Sc Pt) : Option (Challenges Sc) :=
     let dt := challengeScalar (Sc := Sc) t b!"d"
     some ⟨yt.1, zt.1, xt.1, wt.1, dt.1, uSq, uInvSq, s⟩
 
+/-- every challenge `RangeProof::verify` draws, with its label, in drawing order
+    (`y z x w c u…u d`; `c` is the legacy challenge). Same transcript as `challenges`
+    (theorem `C04.challengeTrace_spec`); used by the correspondence to compare challenge values. -/
+def challengeTrace (t : T) (nm : Nat) (pf : Proof Sc Pt) : Option (List (String × Sc)) :=
+  let t := TranscriptOps.append t b!"dom-sep" b!"range-proof"
+  let t := appendU64 t b!"n" nm
+  let t := TranscriptOps.append t b!"A" pf.aB
+  let t := TranscriptOps.append t b!"S" pf.sB
+  let yt := challengeScalar (Sc := Sc) t b!"y"
+  let zt := challengeScalar (Sc := Sc) yt.2 b!"z"
+  let t := TranscriptOps.append zt.2 b!"T_1" pf.t1B
+  let t := TranscriptOps.append t b!"T_2" pf.t2B
+  let xt := challengeScalar (Sc := Sc) t b!"x"
+  let t := appendScalar xt.2 b!"t_x" pf.tx
+  let t := appendScalar t b!"t_x_blinding" pf.txBlinding
+  let t := appendScalar t b!"e_blinding" pf.eBlinding
+  let wt := challengeScalar (Sc := Sc) t b!"w"
+  let ct := challengeScalar (Sc := Sc) wt.2 b!"c"
+  match verificationScalars nm ct.2 pf.ipp with
+  | none => none
+  | some (_, _, _, t) =>
+    let us := (ippChallenges (Sc := Sc)
+      (appendU64 (TranscriptOps.append ct.2 b!"dom-sep" b!"inner-product") b!"n" nm) pf.ipp.lB pf.ipp.rB).1
+    let t := appendScalar t b!"ipp_a" pf.ipp.a
+    let t := appendScalar t b!"ipp_b" pf.ipp.b
+    let dt := challengeScalar (Sc := Sc) t b!"d"
+    some ([("y", yt.1), ("z", zt.1), ("x", xt.1), ("w", wt.1), ("c", ct.1)] ++ us.map (fun u => ("u", u))
+      ++ [("d", dt.1)])
+
 /-- `z^j·2^k` for commitment `j`, bit `k` — the vector `concat_z_and_2` -/
 def concatZAnd2 (z : Sc) (bitLengths : List Nat) : List Sc :=
   (List.zip (powers z bitLengths.length) bitLengths).flatMap fun (ez, n) =>
